@@ -54,7 +54,7 @@ PROPS["C04"] = dict(
     technique="contract-based deductive verification (Verus): recursive closed-forest predicate as part of the frame law of every ParserState operation; precondition of pairs::new discharged in state()",
     level_text="Part (a), emission: proved for all call trees of lawful closures that the tokens appended by any operation form a closed forest (balanced, properly nested, positions non-decreasing, on UTF-8 boundaries, within the text walked), hence every successful parse hands pairs::new a well-formed stream. Part (b), views: see the pairs unit.",
     level_note="As C03. Display/Debug/JSON/concat views build strings through format!/serde and are outside the Verus subset; the node-tag views and the text views are decided only by the pairs_search enumeration in the quick tier (bounded stand-in, not counted).",
-    assumptions=CORE_ASSUME, not_covered=CORE_NOT_COVERED + ["Display, alternate Display, Debug, to_json: format!/serde code outside every contract - decided only by the pairs_search enumeration (bounded stand-in; known finding F6 for the empty top-level Pairs); Pairs::concat is not covered",
+    assumptions=CORE_ASSUME, not_covered=CORE_NOT_COVERED + ["Display, alternate Display, Debug, to_json: format!/serde code outside every contract - decided only by the pairs_search enumeration (bounded stand-in; known finding F6 for the empty top-level Pairs)",
         "node-tag views (as_node_tag, find_tagged, find_first_tagged: Filter<FlatPairs, impl FnMut>) are iterator-adaptor code outside every contract: decided only by the pairs_search enumeration (bounded stand-in, every forest of <= 3 nodes x every tag assignment)"],
 )
 PROPS["C08"] = dict(
